@@ -183,7 +183,7 @@ def _one(name, params, ret, body, types, helpers, helper=False):
             continue
         if m.group(3) not in types:
             raise TieBroken(f"srcfacts: {name}: unknown registry type {m.group(3)}")
-        events.append((m.start(), ("GDeref", i, types[m.group(3)])))
+        events.append((m.start(), ("GDeref", i, types[m.group(3)])))      # GDerefOpt when behind `if !p.is_null()`, below
         checked_at.setdefault(i, m.start())
         validated_params.add(i)
     untracked_params = set()
@@ -225,6 +225,13 @@ def _one(name, params, ret, body, types, helpers, helper=False):
             e = alias.get(m.group(1), m.group(1))
             if e in idx:
                 nullok_at.setdefault(idx[e], m.start())
+
+    opt_handles = set()
+    for n_, (pos, g) in enumerate(events):
+        if g[0] == "GDeref" and g[1] in nullok_at and nullok_at[g[1]] < pos and not any(
+                g2[0] in ("GPtr", "GDeref", "GUntrack") and g2[1] == g[1] and p2 < pos for p2, g2 in events):
+            events[n_] = (pos, ("GDerefOpt",) + g[1:])
+            opt_handles.add(g[1])
 
     def is_ptr_ty(ty):
         return ty.startswith("*") or ty.startswith("&")
@@ -292,7 +299,7 @@ def _one(name, params, ret, body, types, helpers, helper=False):
     for i, (pn, ty) in enumerate(ps):
         ht = handle_type(ty)
         if ht is not None:
-            kinds.append(("PHandle", ht))
+            kinds.append(("PHandleOpt" if i in opt_handles else "PHandle", ht))
         elif i >= len(names) or re.match(r"^\*(?:mut|const)\s+c_char$", ty):
             kinds.append(("PStrOpt",) if i in opt or ("GCstr", i) not in gset else ("PStr",))
         elif re.match(r"^\*const\s+\*const\s+c_char$", ty):
@@ -324,7 +331,7 @@ def _g(g):
 
 
 def _k(k):
-    return "(PHandle %d)" % k[1] if k[0] == "PHandle" else k[0]
+    return "(%s %d)" % k if k[0] in ("PHandle", "PHandleOpt") else k[0]
 
 
 def facts(ctx):
